@@ -60,6 +60,9 @@ func equal(elems []any, nonTerminals []lex.Token, defaultField string) ([]any, [
 		return elems, nonTerminals, false
 	}
 
+	// terms inside the value of an explicit field belong to that field, not to the default field
+	value = unwrapLiteral(value, defaultField)
+
 	if literals, ok := isChainedOrLiterals(value); ok && len(literals) > 1 {
 		elems = []any{
 			expr.IN(
@@ -133,6 +136,9 @@ func compare(elems []any, nonTerminals []lex.Token, defaultField string) ([]any,
 		return elems, nonTerminals, false
 	}
 
+	// terms inside the value of an explicit field belong to that field, not to the default field
+	value = unwrapLiteral(value, defaultField)
+
 	if tokCmp.Typ == lex.TGreater {
 		elems = []any{
 			expr.GREATER(
@@ -184,6 +190,9 @@ func compareEq(elems []any, nonTerminals []lex.Token, defaultField string) ([]an
 	if !ok {
 		return elems, nonTerminals, false
 	}
+
+	// terms inside the value of an explicit field belong to that field, not to the default field
+	value = unwrapLiteral(value, defaultField)
 
 	if tokCmp.Typ == lex.TGreater {
 		elems = []any{
@@ -557,4 +566,38 @@ func wrapLiteral(lit *expr.Expression, field string) *expr.Expression {
 		return expr.Eq(expr.Column(field), lit)
 	}
 	return lit
+}
+
+// unwrapLiteral undoes wrapLiteral inside the value of an explicitly fielded term, e.g. for
+// a:(x OR y) with a default field the reducers of the group have already turned x and y into
+// field:x and field:y by the time the a: is reduced.
+func unwrapLiteral(e *expr.Expression, field string) *expr.Expression {
+	if e == nil || field == "" {
+		return e
+	}
+
+	switch e.Op {
+	case expr.Equals, expr.Like:
+		col, isExpr := e.Left.(*expr.Expression)
+		if !isExpr || col.Op != expr.Literal {
+			return e
+		}
+		name, isCol := col.Left.(expr.Column)
+		val, isVal := e.Right.(*expr.Expression)
+		if isCol && isVal && string(name) == field {
+			return val
+		}
+		return e
+	case expr.And, expr.Or, expr.Not, expr.Must, expr.MustNot, expr.Fuzzy, expr.Boost:
+		out := *e
+		if left, ok := e.Left.(*expr.Expression); ok {
+			out.Left = unwrapLiteral(left, field)
+		}
+		if right, ok := e.Right.(*expr.Expression); ok {
+			out.Right = unwrapLiteral(right, field)
+		}
+		return &out
+	}
+
+	return e
 }
